@@ -88,6 +88,7 @@ def run(ctx):  # noqa: C901, PLR0912, PLR0915
     disassociate_all_marks(ctx, 'C16.R2')
     from . import common
     common.entity_getters_hand_out_copies(ctx, 'C16.R2')
+    ctx.borrow('C02', {'C02.R4'}, 'C16.R2', contains=['context state updates are looked up'], why='a disassociation written with a descriptor transaction is not lost')
     # ------------------------------------------------------------------ R1
     esc = chain_escapes(repo, LOC, 'filter_services_inside')
     sites_total = sum(len(raise_sites(repo.resolve_method(LOC, m))) for m in
